@@ -52,8 +52,9 @@ def compile_variant(src: str, spec: str | None):
     return mod
 
 
-def run_machine(mod, env, accs, label, **kw):
+def run_machine(mod, env, accs, label, pc_side_effects=True, **kw):
     m = AccfgMachine(mod, env, accs, label=label, **kw)
+    m.pc_side_effects = pc_side_effects
     m.step_limit = 400_000
     m.run_single("f", G.env_args(env), Core(0))
     return m
